@@ -5,7 +5,6 @@ import (
 	"fmt"
 	"os"
 	"path/filepath"
-	"strings"
 
 	"github.com/tonkeeper/tongo/boc"
 
@@ -15,6 +14,9 @@ import (
 
 func init() {
 	execs["c07.parse"] = execC07Parse
+	execs["c07.alloc"] = execC07Alloc
+	execs["c07.print"] = execC07Print
+	execs["c07.lines"] = execC07Lines
 	gens["C07"] = genC07
 }
 
@@ -48,59 +50,6 @@ func execC07Parse(in sx.V) sx.V {
 		outs = append(outs, ri)
 	}
 	return sx.L(outs...)
-}
-
-// after a successful parse: hashing, printing, re-serialising terminate and
-// the cell is well-formed (oracle on the implementation only)
-func c07Oracle(c *Ctx, in sx.V) {
-	defer func() {
-		if r := recover(); r != nil {
-			// malformed exotic cells may legitimately make Hash fail; a panic in
-			// ToString/ToBoc of a *well-formed ordinary* tree is what we look for
-			_ = r
-		}
-	}()
-	cells, err := boc.DeserializeBoc(in.Bytes)
-	if err != nil {
-		return
-	}
-	for _, root := range cells {
-		seen := map[*boc.Cell]bool{}
-		var walk func(x *boc.Cell, depth int) bool
-		walk = func(x *boc.Cell, depth int) bool {
-			if depth > 70000 {
-				return false
-			}
-			if seen[x] {
-				return true
-			}
-			seen[x] = true
-			if x.BitSize() > 1023 || x.RefsSize() > 4 {
-				c.Fail("c07.parse", in, "malformed-cell", "parser returned a cell with more than 1023 bits or 4 refs")
-				return false
-			}
-			for _, ch := range x.Refs() {
-				if ch == nil {
-					c.Fail("c07.parse", in, "nil-ref", "parser returned a cell with a missing reference")
-					return false
-				}
-				if !walk(ch, depth+1) {
-					return false
-				}
-			}
-			return true
-		}
-		walk(root, 0)
-		_ = root.ToString()
-		if _, err := root.Hash(); err == nil {
-			if b, err := root.ToBoc(); err == nil {
-				back, err := boc.DeserializeBoc(b)
-				if err != nil || len(back) != 1 {
-					c.Fail("c07.parse", in, "reserialize", "re-serialised output of a parsed cell does not parse")
-				}
-			}
-		}
-	}
 }
 
 func wellKnownBocs() [][]byte {
@@ -199,16 +148,17 @@ func genC07(c *Ctx) {
 	// 1. the valid seeds themselves
 	for _, s := range seeds {
 		in := sx.Bytes(s)
-		c.EmitGuarded("c07.parse", in, "valid|"+classOfLen(len(s)))
-		c07Oracle(c, in)
+		c07Oracle(c, in, c.EmitGuarded("c07.parse", in, "valid|"+classOfLen(len(s))))
 	}
 	if b := repoFile("tlb/testdata/block-5/block.bin"); b != nil {
-		c.EmitGuarded("c07.parse", sx.Bytes(b), "valid|block-5")
+		in := sx.Bytes(b)
+		c07Oracle(c, in, c.EmitGuarded("c07.parse", in, "valid|block-5"))
 	}
 	if c.Thorough() {
 		for _, f := range []string{"tlb/testdata/block-1/block.bin", "tlb/testdata/block-2/block.bin", "tlb/testdata/block-3/block.bin"} {
 			if b := repoFile(f); b != nil {
-				c.EmitGuarded("c07.parse", sx.Bytes(b), "valid|real-block")
+				in := sx.Bytes(b)
+				c07Oracle(c, in, c.EmitGuarded("c07.parse", in, "valid|real-block"))
 			}
 		}
 	}
@@ -227,8 +177,7 @@ func genC07(c *Ctx) {
 		}
 		for k := 0; k < len(s); k += step {
 			in := sx.Bytes(s[:k])
-			c.EmitGuarded("c07.parse", in, "truncation|"+classOfLen(k))
-			c07Oracle(c, in)
+			c07Oracle(c, in, c.EmitGuarded("c07.parse", in, "truncation|"+classOfLen(k)))
 		}
 	}
 	// 3. single-byte substitutions: header bytes exhaustively on interesting
@@ -262,8 +211,7 @@ func genC07(c *Ctx) {
 				} else if pos < 24 {
 					where = "header"
 				}
-				c.EmitGuarded("c07.parse", in, "subst|"+where)
-				c07Oracle(c, in)
+				c07Oracle(c, in, c.EmitGuarded("c07.parse", in, "subst|"+where))
 			}
 		}
 	}
@@ -284,12 +232,12 @@ func genC07(c *Ctx) {
 		hdr(0x07, 0x01, be(1, 7), be(1<<55, 7), be(0, 7), be(2, 1), be(0, 7), []byte{0, 0}),  // 2^55 roots
 		hdr(0x04, 0x08, be(1, 4), be(1, 4), be(0, 4), be(1<<63, 8), be(0, 4), []byte{0, 0}),  // tot size 2^63
 		hdr(0x04, 0x08, be(1, 4), be(1, 4), be(0, 4), be(^uint64(0), 8), be(0, 4), []byte{0, 0}),
-		hdr(0x01, 0x01, be(1, 1), be(1, 1), be(0, 1), be(2, 1), be(0, 1), []byte{0x10, 0}),   // stored hashes, no data
-		hdr(0x01, 0x01, be(1, 1), be(1, 1), be(0, 1), be(2, 1), be(0, 1), []byte{0x08, 0}),   // exotic, no data
-		hdr(0x01, 0x01, be(1, 1), be(1, 1), be(0, 1), be(2, 1), be(0, 1), []byte{0xf8, 0}),   // exotic, mask 7, hashes
+		hdr(0x01, 0x01, be(1, 1), be(1, 1), be(0, 1), be(2, 1), be(0, 1), []byte{0x10, 0}), // stored hashes, no data
+		hdr(0x01, 0x01, be(1, 1), be(1, 1), be(0, 1), be(2, 1), be(0, 1), []byte{0x08, 0}), // exotic, no data
+		hdr(0x01, 0x01, be(1, 1), be(1, 1), be(0, 1), be(2, 1), be(0, 1), []byte{0xf8, 0}), // exotic, mask 7, hashes
 		hdr(0x01, 0x01, be(2, 1), be(1, 1), be(0, 1), be(5, 1), be(0, 1), []byte{0x01, 0, 1, 0x00, 0x00}),
 		hdr(0x01, 0x01, be(2, 1), be(1, 1), be(0, 1), be(5, 1), be(1, 1), []byte{0x00, 0, 0x01, 0, 0}), // backward ref
-		hdr(0x01, 0x01, be(1, 1), be(1, 1), be(0, 1), be(3, 1), be(0, 1), []byte{0x05, 0, 0}),           // 5 refs announced
+		hdr(0x01, 0x01, be(1, 1), be(1, 1), be(0, 1), be(3, 1), be(0, 1), []byte{0x05, 0, 0}),          // 5 refs announced
 		hdr(0x00, 0x00), // size 0
 		hdr(0x81, 0x01, be(1, 1), be(1, 1), be(0, 1), be(2, 1), be(0, 1), []byte{0, 0}), // idx announced, no index bytes
 		{0x68, 0xff, 0x65, 0xf3, 0xff, 0x01},
@@ -310,8 +258,17 @@ func genC07(c *Ctx) {
 	}
 	for _, a := range adv {
 		in := sx.Bytes(a)
-		c.EmitGuarded("c07.parse", in, "adversarial")
-		c07Oracle(c, in)
+		c07Oracle(c, in, c.EmitGuarded("c07.parse", in, "adversarial"))
+	}
+	// many empty cells (2 input bytes each): the largest allocation per input
+	// byte a valid BOC can ask for
+	emptyCounts := []int{100, 255, 256, 1000}
+	if c.Thorough() {
+		emptyCounts = append(emptyCounts, 5000)
+	}
+	for _, n := range emptyCounts {
+		in := sx.Bytes(refSerialize(make([]Node, n), []int{0}, HeaderVariant{}, r))
+		c07Oracle(c, in, c.EmitGuarded("c07.parse", in, "empty-cells"))
 	}
 	// grid of counts and widths against short inputs
 	for _, size := range []int{0, 1, 2, 3, 4, 5, 7} {
@@ -326,7 +283,7 @@ func genC07(c *Ctx) {
 				}
 				b = append(b, r.Bytes(r.Intn(12))...)
 				in := sx.Bytes(b)
-				c.EmitGuarded("c07.parse", in, fmt.Sprintf("grid|size%d", size))
+				c07Oracle(c, in, c.EmitGuarded("c07.parse", in, fmt.Sprintf("grid|size%d", size)))
 			}
 		}
 	}
@@ -357,8 +314,7 @@ func genC07(c *Ctx) {
 			}
 		}
 		in := sx.Bytes(m)
-		c.EmitGuarded("c07.parse", in, "multi-mutation")
-		c07Oracle(c, in)
+		c07Oracle(c, in, c.EmitGuarded("c07.parse", in, "multi-mutation"))
 	}
 	nRand := c.Scale(300, 20000)
 	for i := 0; i < nRand; i++ {
@@ -367,7 +323,13 @@ func genC07(c *Ctx) {
 		if r.Chance(70) && n >= 4 {
 			copy(b, []byte{0xb5, 0xee, 0x9c, 0x72})
 		}
-		c.EmitGuarded("c07.parse", sx.Bytes(b), "random")
+		in := sx.Bytes(b)
+		c07Oracle(c, in, c.EmitGuarded("c07.parse", in, "random"))
 	}
-	_ = strings.Builder{}
+	// 6. huge, mutually consistent header counters in front of a tiny body
+	c07ConsistentHuge(c, r.Fork(0xc07a))
+	// 7. valid BOCs with heavy sub-cell sharing: printing / hashing /
+	//    re-serialising the parsed cells terminate within the budget
+	c07Sharing(c, r.Fork(0xc07b))
+	c07DumpStats()
 }
